@@ -122,7 +122,7 @@ def side_checks(ctx, env, res, opts, side, k):
         return None
     gscale = 1.0 + float(np.max(np.abs(G_solver)))
     err = float(np.max(np.abs(Pm.T @ Pm - oracles.psd_projection(G_solver))))
-    if err > k * gscale:
+    if err > 1e-9 * gscale:  # a factorisation, not a solve: round-off tolerance (DESIGN §9, round 15)
         ctx.fail("%s:gram-mismatch" % side, "leaf points do not reproduce the Gram matrix (error %.3e)" % err)
     worst = 0.0
     for c in lc:
